@@ -489,6 +489,22 @@ class RowStatHelper:
 
         return self
 
+    def with_columns_of(self, schema):
+        """
+        Statistics exist for every column, also when no row was merged
+        (an empty dataset): its count is 0
+        """
+        for col in self.cols:
+            for field in col.output_fields(schema):
+                col_name = field.name
+                if col_name not in self.column_stat_helpers:
+                    self.column_stat_helpers[col_name] = ColumnStatHelper(
+                        parse(col_name),
+                        self.percentiles_relative_error
+                    )
+                    self.col_names.append(col_name)
+        return self
+
     def mergeStats(self, other):
         """
 
